@@ -2,6 +2,8 @@ package c03
 
 import (
 	"fmt"
+	"github.com/llir/llvm/ir/constant"
+	"github.com/llir/llvm/ir/types"
 	"math"
 	"os"
 	"sort"
@@ -48,6 +50,16 @@ func checkProgram(t hx.TB, test string, m *am.Module) (ok bool, calls map[string
 	y, p := lx.Print(im)
 	if p != nil {
 		hx.Fail(t, test, "ll", c, "printing the constructed module panics: %s", p)
+	}
+	// (2b) the constructors take no address space: a program assigns the AddrSpace field of globals,
+	// functions and stack slots after construction. The plain way of doing that (no reset of the cached
+	// pointer type by hand) must give the same text.
+	var naive *ir.Module
+	if p := lx.Guard(func() { naive, _ = emit.ModuleWith(m, true) }); p != nil {
+		hx.Fail(t, test, "ll", c, "a well-typed construction is rejected by a constructor (panic): %s", p)
+	}
+	if yn, pn := lx.Print(naive); pn != nil || yn != y {
+		hx.Fail(t, test, "ll", c, "assigning AddrSpace after construction (the only way the API offers) without resetting the cached type by hand prints a different module (%v):\n%s", pn, llvmx.Diff(y, yn))
 	}
 	// (3) the library's parser accepts the text, re-prints it identically, structurally identical module
 	pm, err, pp := lx.Parse(y)
@@ -140,6 +152,10 @@ func TestReplay(t *testing.T) {
 		t.Fatal(err)
 	}
 	x := string(buf)
+	if strings.Contains(x, "scenario: addrspace-after-construction") {
+		addrSpaceScenario(t)
+		return
+	}
 	if strings.Contains(x, "constant.NewFloat(types.") {
 		// cases of NewFloatRounding: one per line
 		for _, l := range strings.Split(x, "\n") {
@@ -196,4 +212,39 @@ func offendingLine(err error, y string) string {
 		return ls[ln-1]
 	}
 	return ""
+}
+
+// addrSpaceScenario is the fixed API program of findings/C03-addrspace-after-construction.txt: the
+// address space of a global, a function and a stack slot is assigned after construction (the constructors
+// take none) and the values are used; the uses must be printed with that address space and LLVM must
+// accept the module.
+func addrSpaceScenario(t *testing.T) {
+	m := ir.NewModule()
+	g := m.NewGlobalDef("g", constant.NewInt(types.I32, 1))
+	g.AddrSpace = 3
+	callee := m.NewFunc("callee", types.Void)
+	callee.AddrSpace = 1
+	f := m.NewFunc("f", types.I32)
+	b := f.NewBlock("entry")
+	slot := b.NewAlloca(types.I32)
+	slot.AddrSpace = 5
+	v := b.NewLoad(types.I32, g)
+	b.NewStore(v, slot)
+	call := b.NewCall(callee)
+	call.AddrSpace = 1 // the call site states the callee's address space itself
+	b.NewStore(callee, b.NewAlloca(callee.Type()))
+	b.NewRet(v)
+	y, p := lx.Print(m)
+	c := "; scenario: addrspace-after-construction\n" + y
+	if p != nil {
+		hx.Fail(t, "Replay", "txt", c, "printing panics: %s", p)
+	}
+	for _, want := range []string{"load i32, i32 addrspace(3)* @g", "store i32 %1, i32 addrspace(5)* %0", "call addrspace(1) void @callee()", "store void () addrspace(1)* @callee, void () addrspace(1)** %2"} {
+		if !strings.Contains(y, want) {
+			hx.Fail(t, "Replay", "txt", c, "the address space assigned after construction does not reach the use: `%s` expected in\n%s", want, y)
+		}
+	}
+	if r := llvmx.Accept(y); !r.OK && !r.Crashed {
+		hx.Fail(t, "Replay", "txt", c, "LLVM rejects the module: %s\n%s", firstLine(r.Err), y)
+	}
 }
